@@ -10,10 +10,13 @@ import (
 	"fmt"
 	"math/rand"
 	"os"
+	"os/signal"
+	"runtime"
 	"sort"
 	"strconv"
 	"strings"
 	"sync"
+	"syscall"
 	"testing"
 	"time"
 )
@@ -137,7 +140,30 @@ type vResult struct {
 	curCase      int
 }
 
+// vDumpOnSignal: on SIGUSR1 the child writes all goroutine stacks to $VERIF_TMP/gdump.<shard>.<pid>.<n>.txt and goes on.
+// The driver samples a child that is about to hit its watchdog (or that grows without bound) a few times: code that is
+// *running* in the same repository function in every sample, while the journalled case does not change, is a runaway loop.
+var vDumpOnce sync.Once
+
+func vDumpOnSignal() {
+	vDumpOnce.Do(func() {
+		ch := make(chan os.Signal, 4)
+		signal.Notify(ch, syscall.SIGUSR1)
+		go func() {
+			n := 0
+			for range ch {
+				n++
+				buf := make([]byte, 8<<20)
+				buf = buf[:runtime.Stack(buf, true)]
+				name := fmt.Sprintf("%s/gdump.%s.%d.%d.txt", os.Getenv("VERIF_TMP"), strings.ReplaceAll(os.Getenv("VERIF_SHARD"), "/", "of"), os.Getpid(), n)
+				os.WriteFile(name, buf, 0o644)
+			}
+		}()
+	})
+}
+
 func vNewResult(prop string) *vResult {
+	vDumpOnSignal()
 	return &vResult{Property: prop, Distinct: map[string]int{}, Events: map[string]int{},
 		maxSamples: 6, maxDistinct: 200000, curCase: -1}
 }
